@@ -3,7 +3,7 @@ from . import common, vfcommon as V
 import vlib
 
 LEVEL = "proof"
-SEEKS = ["rawseek", "pcmseek", "pcmseekpage", "timeseek", "timeseekpage", "pcmseeklap", "rawseeklap", "timeseeklap", "pcmseekpagelap", "timeseekpagelap"]
+SEEKS = ["rawseekto", "rawseek", "pcmseek", "pcmseekpage", "timeseek", "timeseekpage", "pcmseeklap", "rawseeklap", "timeseeklap", "pcmseekpagelap", "timeseekpagelap"]
 CODES = {"OV_FALSE", "OV_EOF", "OV_HOLE", "OV_EREAD", "OV_EFAULT", "OV_EIMPL", "OV_EINVAL", "OV_ENOTVORBIS", "OV_EBADHEADER",
          "OV_EVERSION", "OV_ENOTAUDIO", "OV_EBADPACKET", "OV_EBADLINK", "OV_ENOSEEK"}
 
@@ -40,10 +40,14 @@ def gen_case(rng, i, tier):
             ops.append(someop(0))
         ops.append("nofault 0")
         # the callbacks work again: a seek to any valid position, then reads, on the handle and on its untouched twin
-        kind = rng.choice(["pcmseek", "pcmseek", "pcmseekpage", "rawseek", "timeseek"])
+        kind = rng.choice(["pcmseek", "pcmseek", "pcmseekpage", "rawseek", "timeseek", "rawseekto", "rawseekto"])
         arg = rng.randrange(0, 1000) if kind == "timeseek" else (rng.randrange(0, 6000) if kind == "rawseek" else rng.randrange(0, total + 1))
-        for slot in (0, 1):
-            ops.append("%s %d %d" % (kind, slot, arg))
+        for slot in ((1, 0) if kind == "rawseekto" else (0, 1)):
+            if kind == "rawseekto":
+                # back to the byte position the failed handle stands at (the twin goes there first, while that position is still readable)
+                ops.append("rawseekto %d 0" % slot)
+            else:
+                ops.append("%s %d %d" % (kind, slot, arg))
             ops.append("tell %d" % slot)
             for ln in (4096, 64, 4096):
                 ops.append("read %d %d" % (slot, ln))
@@ -56,9 +60,27 @@ def strip_slot(op):
     return " ".join([t[0]] + t[2:])
 
 
+def compare_recovery(rec0, rec1):
+    """answers of the handle that saw the failure vs its never-failed twin, after the callbacks work again"""
+    for (op0, a0), (op1, a1) in zip(rec0, rec1):
+        if op0 != op1:
+            return None
+        fa, fb = V.kv(a0), V.kv(a1)
+        fa.pop("state", None)
+        fb.pop("state", None)
+        name = op0.split(" ")[0]
+        if name in SEEKS and fb.get("rc") != "0":
+            return None            # the argument is refused on the twin as well: nothing to compare from here on
+        if fa != fb or a0.split(" ")[0] != a1.split(" ")[0] or ("=" not in a1 and a0 != a1):
+            return "recover: after the failure '%s' answers '%s', on a handle that never failed '%s'" % (op0, a0, a1)
+        if name == "read" and fb.get("rc", "").isdigit() and int(fb["rc"]) > 0 and fb.get("ok") != "1":
+            return "data: " + a1
+    return None
+
+
 def oracle(d):
     under_fault = False
-    pend = []       # answers of slot 0 after recovery, to be matched by slot 1
+    rec = {0: [], 1: []}
     for op, a in d["ans"]:
         if a is None or isinstance(a, list):
             continue
@@ -73,47 +95,27 @@ def oracle(d):
                 if f["closed"] != "0":
                     return "open-closed: failed open closed the data source: " + a
             continue
-        if t[0] == "fault":
-            under_fault = True
-            continue
-        if t[0] == "nofault":
-            under_fault = False
-            pend = []
+        if t[0] in ("fault", "nofault", "clear"):
+            r = compare_recovery(rec[0], rec[1])
+            if r:
+                return r
+            rec = {0: [], 1: []}
+            under_fault = (t[0] == "fault")
+            if t[0] == "clear" and not a.endswith("notopen") and f.get("closed") != "1":
+                return "close-count: %s" % a
             continue
         if a.endswith("notopen"):
-            continue
-        if t[0] == "clear":
-            if f.get("closed") != "1":
-                return "close-count: %s" % a
             continue
         rc = f.get("rc")
         if rc is not None and rc.startswith("OV_") and rc not in CODES:
             return "code: %s returned %s" % (op, rc)
         if t[0] in SEEKS and rc is not None and not rc.startswith("OV_") and rc != "0":
             return "code: %s returned %s, neither 0 nor an error code" % (op, rc)
-        if t[0] in ("read",) and rc is not None and not rc.startswith("OV_") and int(rc) > 0 and not under_fault:
-            pass
         if under_fault:
             continue
-        # recovered: slot 0 first, then the twin; answers must coincide
-        if t[1] == "0":
-            pend.append((strip_slot(op), a))
-        elif t[1] == "1" and pend:
-            sop, sa = pend.pop(0)
-            if sop != strip_slot(op):
-                pend = []
-                continue
-            fa, fb = V.kv(sa), V.kv(a)
-            fa.pop("state", None)
-            fb.pop("state", None)
-            if t[0] in SEEKS and fb.get("rc") != "0":
-                pend = []          # the argument is refused on the twin as well: nothing to compare
-                continue
-            if fa != fb or sa.split(" ")[0] != a.split(" ")[0] or ("=" not in a and sa != a):
-                return "recover: after the failure '%s' answers '%s', on a handle that never failed '%s'" % (op, sa, a)
-            if t[0] == "read" and rc and not rc.startswith("OV_") and int(rc) > 0 and f.get("ok") != "1":
-                return "data: " + a
-    return None
+        if t[1] in ("0", "1"):
+            rec[int(t[1])].append((strip_slot(op) if t[0] != "rawseekto" else "rawseekto", a))
+    return compare_recovery(rec[0], rec[1])
 
 
 def run(chk):
